@@ -68,7 +68,7 @@ def corpus(c, exe, ver):
 def run(c):
     c.assumptions += [
         "a module fails through the cyclic-dependency verdict of module.wait or because its environment cannot be set up "
-        "(a module of a project that is not in the build list: D23); every other generated module file exists and evaluates; "
+        "(a module of a project that is not in the build list: D24); every other generated module file exists and evaluates; "
         "a load error propagates to the loading module as the Starlark load error does",
         "C06_progress-style termination needs weak fairness of the Go scheduler for a by-standing chain walk that can spin "
         "while two other goroutines are between publishing and un-publishing a cycle (DESIGN.md section 4)",
